@@ -16,7 +16,9 @@ def conc(name, src, threads, R, cflags=(), pre=('prologue',), post=('epilogue',)
         t = dict(t); t.setdefault('slot', i + 1)
         ths.append(t)
     ns = nslots or (max(t['slot'] for t in ths) + 1)
-    plain = [(f, 0) for f in list(pre) + list(post)]
+    def pl(f):
+        return (f[0], f[1]) if isinstance(f, (list, tuple)) else (f, 0)
+    plain = [pl(f) for f in list(pre) + list(post)]
     base = dict(src=src, cflags=list(cflags), nslots=ns, pre=list(pre), plain=plain, threads=ths, rounds=R, unwind=unwind,
                 tso=tso, faults=faults, unwind_fn={'^F0_': 12}, timeout=timeout, rt_defines={'RT_NGHOST': 64})
     if extra:
@@ -35,7 +37,7 @@ def conc(name, src, threads, R, cflags=(), pre=('prologue',), post=('epilogue',)
         d = copy.deepcopy(base)
         so = solo_order or [t['slot'] for t in ths] * 2
         d.update(name=name + '.live', post=[], rounds=live_R or R, require_done='assert', solo=dict(slots=so, turns=1),
-                 plain=[(f, 0) for f in pre], witnesses=['end of harness reachable'],
+                 plain=[pl(f) for f in pre], witnesses=['end of harness reachable'],
                  desc=desc + ' [bounded completion: after any prefix within the bound every thread finishes when run in turn; no deadlock]',
                  bounds=dict(bounds, R=live_R or R, solo=so))
         out.append(d)
